@@ -24,22 +24,25 @@ inductive Args.Mem : Expr → Args → Prop where
   | tail {e e' r} : Args.Mem e r → Args.Mem e (.cons e' r)
 
 /-- `Sub x e`: the node `x` occurs in expression `e` — as `e` itself, as an argument of a
-    call at any depth, or below any other node.  `barrier` / `state_result` nodes are
+    call at any depth, inside an index expression of a subscripted place, or below any other node.  `barrier` / `state_result` nodes are
     opaque (they are the excepted operations). -/
 inductive Sub : Expr → Expr → Prop where
   | refl {e} : Sub e e
   | call {x a g args r} : Args.Mem a args → Sub x a → Sub x (.call g args r)
   | node {x a cs q} : Args.Mem a cs → Sub x a → Sub x (.node cs q)
+  /-- inside an index expression of a subscripted place -/
+  | idx {x a q is} : Args.Mem a is → Sub x a → Sub x (.place q is)
 
 mutual
 /-- `SiteS F s F' e`: when statement `s` stands in a context requiring `F`, `e` is an
-    expression position of `s` — the statement's own expression, an assigned value, an
+    expression position of `s` — the statement's own expression, an assigned value or assignment target, an
     `if` / `while` condition, a control argument of a nested `with`, or a position of a nested
     statement — and `F'` is what is required there: `F` plus the flags of every `with` block
     entered on the way. -/
 inductive SiteS : Flags → Stmt → Flags → Expr → Prop where
   | expr {F e} : SiteS F (.expr e) F e
-  | assign {F e} : SiteS F (.assign (some e)) F e
+  | assign {F t e} : SiteS F (.assign t (some e)) F e
+  | assignT {F t v} : SiteS F (.assign t v) F t
   | iteC {F c t f} : SiteS F (.ite c t f) F c
   | iteT {F F' e c t f} : SiteB F t F' e → SiteS F (.ite c t f) F' e
   | iteF {F F' e c t f} : SiteB F f F' e → SiteS F (.ite c t f) F' e
@@ -68,7 +71,7 @@ end
 mutual
 /-- an assignment occurs at a position where `F'` is required -/
 inductive AssignAtS : Flags → Stmt → Flags → Prop where
-  | here {F v} : AssignAtS F (.assign v) F
+  | here {F t v} : AssignAtS F (.assign t v) F
   | whileB {F F' c b} : AssignAtB F b F' → AssignAtS F (.while c b) F'
   | iteT {F F' c t f} : AssignAtB F t F' → AssignAtS F (.ite c t f) F'
   | iteF {F F' c t f} : AssignAtB F f F' → AssignAtS F (.ite c t f) F'
@@ -86,7 +89,7 @@ def Args.PassesQubit (args : Args) : Prop := ∃ a, Args.Mem a args ∧ a.hasQub
     required flag, or (dagger) a subscripted place occurs in it. -/
 def BadE (F : Flags) (e : Expr) : Prop :=
   (∃ g args r, Sub (.call g args r) e ∧ args.PassesQubit ∧ ¬ g.Includes F) ∨
-    (F.dagger = true ∧ ∃ q, Sub (.place q true) e)
+    (F.dagger = true ∧ ∃ q is, is.isNil = false ∧ Sub (.place q is) e)
 
 /-- The statement of C24: what must be rejected, for a block standing in a context that
     requires `F`.  Some expression position anywhere in the block is bad for the flags
